@@ -123,6 +123,12 @@ func runCase(f Op, args []Tok) (out []Tok) {
 func main() {
 	logrus.SetOutput(ioutil.Discard)
 	logrus.SetLevel(logrus.PanicLevel)
+	getPki() // also points this process's system trust store at the foreign CA, before anything reads it
+	defer func() {
+		if systemRootsFile != "" {
+			os.Remove(systemRootsFile)
+		}
+	}()
 	in := bufio.NewReaderSize(os.Stdin, 1<<20)
 	w := bufio.NewWriterSize(os.Stdout, 1<<20)
 	defer w.Flush()
